@@ -6156,6 +6156,16 @@ class Device(utils.CompositeEventEmitter):
                 f'*** Disconnection: [0x{connection.handle:04X}] '
                 f'{connection.peer_address} as {connection.role_name}, reason={reason}'
             )
+
+            # The CIS links that were being established over this connection will
+            # never be: drop them and release whoever is waiting for them.
+            for cis_link in list(self.cis_links.values()):
+                if (
+                    cis_link.acl_connection is connection
+                    and cis_link.state == CisLink.State.PENDING
+                ):
+                    self.on_cis_establishment_failure(cis_link.handle, reason)
+
             connection.emit(connection.EVENT_DISCONNECTION, reason)
 
             # Cleanup subsystems that maintain per-connection state
